@@ -417,6 +417,15 @@ func (e *MetaExecutor) CreateIterator(nodeID uint64, shardIDs []uint64, ctx cont
 		return nil, err
 	}
 
+	// The remote node has no iterator for this measurement: there is no stream.
+	// A typed (float) placeholder must not be returned instead, because the type
+	// of the first input decides the type of the merged iterator, and inputs of
+	// another type (e.g. the integer results of count()) are dropped.
+	if resp.Type == influxql.Unknown {
+		conn.Close()
+		return nil, nil
+	}
+
 	return query.NewReaderIterator(ctx, conn, resp.Type, resp.Stats), nil
 }
 
